@@ -7,6 +7,8 @@
  N38 `D[k] = A if C else B` / `x.a = A if C else B` (a statement)  ->  `if C: D[k] = A else: D[k] = B`
  N56 adjacent `if T: A else: B` + `if T: C else: D` (same isinstance test, name not re-bound) -> `if T: A; C else: B; D`
  N39 `len(X) if X else 0` -> `len(X or ())`
+ N63 `X is None` right after `X.attr` was read (same block, no store, no call in between) is false
+ N64 isinstance tests on a never re-bound parameter against built-in kinds are folded under the enclosing tests that decide them
  N62 worklist elimination: `todo = [P]; while todo: cur = todo.pop(); BODY; todo.extend(reversed(XS))` -> the recursion over XS
  N60 `x, = S` -> `x = next(iter(S))`
  N59 `L = [E for T in XS if C]; if not L: raise ..; for y in L: BODY` -> the scan with a found-flag
@@ -853,6 +855,132 @@ def _n62(fn, is_method: bool, counter):
     ast.fix_missing_locations(fn)
 
 
+_BUILTIN_KINDS = {'str', 'int', 'float', 'bool', 'list', 'dict', 'tuple', 'set', 'bytes', 'NoneType'}
+
+
+def _kind_names(e) -> Optional[Set[str]]:
+    els = e.elts if isinstance(e, ast.Tuple) else [e]
+    out = set()
+    for x in els:
+        if isinstance(x, ast.Name) and x.id in _BUILTIN_KINDS:
+            out.add(x.id)
+        else:
+            return None
+    return out
+
+
+def _implies(a: str, b: str) -> Optional[bool]:
+    """isinstance(x, a) known true: what about isinstance(x, b)?  (built-in kinds: only bool is a subclass, of int)"""
+    if a == b or (a == 'bool' and b == 'int'):
+        return True
+    if a == 'int' and b == 'bool':
+        return None
+    return False
+
+
+def _n64(fn):
+    """N64 an isinstance test on a parameter (never re-bound) against built-in kinds that an enclosing test on the same parameter
+    already decides is folded: inside `elif isinstance(v, int):` (after the bool arm), `isinstance(v, float)` is false"""
+    params = {a.arg for a in ast.walk(fn.args) if isinstance(a, ast.arg)}
+    rebound = {n.id for n in ast.walk(fn) if isinstance(n, ast.Name) and not isinstance(n.ctx, ast.Load)}
+    stable = params - rebound
+
+    def test_of(t):
+        """(var, kinds, 'isinstance') or (var, None, 'is-none') for a supported test"""
+        if isinstance(t, ast.Call) and isinstance(t.func, ast.Name) and t.func.id == 'isinstance' and len(t.args) == 2 \
+                and isinstance(t.args[0], ast.Name) and t.args[0].id in stable:
+            ks = _kind_names(t.args[1])
+            if ks:
+                return t.args[0].id, ks, 'isinstance'
+        if isinstance(t, ast.Compare) and len(t.ops) == 1 and isinstance(t.ops[0], ast.Is) and isinstance(t.left, ast.Name) \
+                and t.left.id in stable and isinstance(t.comparators[0], ast.Constant) and t.comparators[0].value is None:
+            return t.left.id, {'NoneType'}, 'isinstance'
+        return None
+
+    def decide(t, facts):
+        got = test_of(t)
+        if got is None:
+            return None
+        v, ks, _ = got
+        pos = [k for (w, k, p_) in facts if w == v and p_]
+        neg = {k for (w, k, p_) in facts if w == v and not p_}
+        if ks <= neg:
+            return False
+        for a in pos:
+            res = [_implies(a, b) for b in ks]
+            if any(r_ is True for r_ in res):
+                return True
+            if all(r_ is False for r_ in res):
+                return False
+        return None
+
+    def walk(stmts, facts):
+        out = []
+        for st in stmts:
+            if isinstance(st, ast.If):
+                d = decide(st.test, facts)
+                if d is True:
+                    out += walk(st.body, facts)
+                    continue
+                if d is False:
+                    out += walk(st.orelse, facts)
+                    continue
+                got = test_of(st.test)
+                if got is not None and len(got[1]) == 1:
+                    k = next(iter(got[1]))
+                    st.body = walk(st.body, facts + [(got[0], k, True)]) or [ast.Pass()]
+                    st.orelse = walk(st.orelse, facts + [(got[0], k, False)])
+                else:
+                    st.body = walk(st.body, facts) or [ast.Pass()]
+                    st.orelse = walk(st.orelse, facts)
+                out.append(st)
+                continue
+            for fld in ('body', 'orelse', 'finalbody'):
+                v = getattr(st, fld, None)
+                if isinstance(v, list) and v and isinstance(v[0], ast.stmt) and not isinstance(st, (ast.FunctionDef, ast.ClassDef, ast.AsyncFunctionDef)):
+                    setattr(st, fld, walk(v, facts))
+            for h in getattr(st, 'handlers', []) or []:
+                h.body = walk(h.body, facts)
+            out.append(st)
+        return out
+    if stable:
+        fn.body = walk(fn.body, []) or [ast.Pass()]
+
+
+def _n63(fn):
+    """N63 a chain that was just dereferenced is not None: after a statement that reads `X.attr` unconditionally, a later test
+    `X is None` in the same block (X not stored in between) is false"""
+    for holder, fld, blk in list(_blocks(fn)):
+        for i, st in enumerate(blk):
+            if not isinstance(st, (ast.Assign, ast.Expr)):
+                continue
+            derefs = {ast.unparse(n.value) for n in ast.walk(st) if isinstance(n, ast.Attribute) and isinstance(n.ctx, ast.Load)
+                      and _is_chain(n.value) and isinstance(n.value, ast.Attribute)}
+            # not inside a conditional part of the statement
+            if any(isinstance(n, (ast.IfExp, ast.BoolOp, ast.Lambda, ast.ListComp, ast.GeneratorExp, ast.DictComp, ast.SetComp)) for n in ast.walk(st)):
+                continue
+            if not derefs:
+                continue
+            j = i + 1
+            while j < len(blk):
+                later = blk[j]
+                written = {ast.unparse(n) for n in ast.walk(later) if isinstance(n, ast.Attribute) and not isinstance(n.ctx, ast.Load)}
+                if (isinstance(later, ast.If) and isinstance(later.test, ast.Compare) and len(later.test.ops) == 1
+                        and isinstance(later.test.ops[0], (ast.Is, ast.IsNot)) and isinstance(later.test.comparators[0], ast.Constant)
+                        and later.test.comparators[0].value is None and ast.unparse(later.test.left) in derefs):
+                    live = later.orelse if isinstance(later.test.ops[0], ast.Is) else later.body
+                    blk[j:j + 1] = list(live)
+                    continue
+                roots = {d.split('.')[0] for d in derefs}
+                reaches = any(isinstance(n, ast.Call) and any(isinstance(x, ast.Name) and x.id in roots for x in ast.walk(n))
+                              for n in ast.walk(later))
+                if written & derefs or reaches:
+                    break           # a call that is handed the object may re-bind the attribute
+                j += 1
+        if not blk:
+            blk.append(ast.Pass())
+
+
 def pre_normalize(tree: ast.Module) -> ast.Module:
     tree = _n39(tree)
     tree = _n47(tree)
@@ -865,6 +993,8 @@ def pre_normalize(tree: ast.Module) -> ast.Module:
                 _n62(fn, isinstance(holder, ast.ClassDef) and not any(isinstance(d, ast.Name) and d.id == 'staticmethod' for d in fn.decorator_list),
                      counter)
     for fn in [n for n in ast.walk(tree) if isinstance(n, (ast.FunctionDef, ast.AsyncFunctionDef))]:
+        _n64(fn)
+        _n63(fn)
         _n60(fn)
         _n49(fn)
         _n50(fn)
